@@ -204,7 +204,7 @@ def canary():
         spec = importlib.util.spec_from_file_location('selftest_ir', os.path.join(os.path.dirname(os.path.dirname(os.path.abspath(__file__))), 'tools', 'selftest_ir.py'))
         m = importlib.util.module_from_spec(spec); spec.loader.exec_module(m)
         with contextlib.redirect_stdout(io.StringIO()):
-            ok = ok and m.main(30, int(os.environ.get('VERIF_SEED', '0') or 0) + 11) == 0
+            ok = ok and m.main(12, int(os.environ.get('VERIF_SEED', '0') or 0) + 11) == 0
     except Exception:
         ok = False
     return ok
